@@ -24,7 +24,8 @@ RULE = ("Each generated case is shipped to three persistent worker processes: JI
         "numba.set_num_threads(n), n in {1,2,4,8,16} and must be bitwise identical. (3) Complete runs on generic continuous "
         "data in all three modes must return identical labels; on divergence the first differing round is located and the "
         "case is a violation only if the exact cost gap there exceeds the slack or the scored tables differ beyond the "
-        "likelihood tolerance. Non-trivial = (1) T>=2,K>=2 with a switching optimum, (2) NW>=8, (3) >= 2 rounds; distinct by SHA-1.")
+        "likelihood tolerance. Non-trivial = (1) T>=2,K>=2 with a switching optimum, (2) NW>=8, (3) >= 2 rounds; distinct by SHA-1."
+        ' Complete runs per Numba thread-team size (1,2,7,8,16) must agree in every result field; a third of the cross-mode runs use >f8/float32/>f4/float16 data.')
 ASSUMPTIONS = ["thread interleaving is not controlled, only the thread count (numba.set_num_threads)",
                "modes are separate processes because Numba reads its configuration at import"]
 
@@ -200,6 +201,28 @@ def execute_threads(case, t):
         t.mark_nontrivial({"T": int(pts.shape[0]), "NW": case["nw"], "threads": counts, "layer": out["layer"]})
 
 
+def execute_e2e_threads(case, t):
+    """A complete run per thread-team size: every field of the result (sums and means of the per-point values included) must be
+    the same bits, not only the likelihood table."""
+    w = workers(thread_env=True)["jit"]
+    counts = [1, 2, 7, 8, 16]
+    try:
+        out = w.call("e2e", cfg=case, workers=0, with_rounds=False, threads=counts)["by_threads"]
+    except WorkerOpError as e:
+        raise Violation(f"complete run raised {e.etype} under numba.set_num_threads")
+    base = out["1"]
+    if not base["ok"]:
+        t.discard(f"run raised {base['exc']}")
+    for n in counts[1:]:
+        o = out[str(n)]
+        if not o["ok"]:
+            raise Violation(f"the run completes with one Numba thread and raises {o['exc']} with {n}")
+        if o["digest"] != base["digest"]:
+            raise Violation(f"the result with {n} Numba threads differs from the single-thread result (reported cost {o['cost']!r} vs {base['cost']!r}; "
+                            "some field is not the same bits)")
+    t.mark_nontrivial({"threads": counts, "cost": base["cost"]})
+
+
 # ----------------------------------------------------------------------------- (3) complete runs
 
 def execute_e2e(case, t):
@@ -246,6 +269,18 @@ def _pinned_e2e_long():
 
 
 def _e2e_strategy():
+    return _e2e_base().map(_with_dtype)
+
+
+def _with_dtype(cfg):
+    # a third of the runs on data of another element type / byte order: the modes must still agree (and all complete)
+    pick = (cfg["data_seed"] // 7) % 9
+    if pick < 4 and not cfg.get("reuse_buffers") and not cfg.get("series_as_views"):
+        cfg = dict(cfg, series_dtype=[">f8", "float32", ">f4", "float16"][pick], prior_calls_on_same_arrays=False)
+    return cfg
+
+
+def _e2e_base():
     return gen.e2e_config(front=("single", "single", "joint"), betas=(0.0, 0.5, 2.0, 10.0, 50.0), limits=(1, 2, 3, 5))
 
 
@@ -256,6 +291,8 @@ SUBCHECKS = [
              budget={"quick": 240, "thorough": 8000}, shards={"quick": 2, "thorough": 4}, modes=["jit"]),
     SubCheck(name="likelihood_table_across_thread_counts", strategy=thread_case, execute=execute_threads,
              budget={"quick": 200, "thorough": 8000}, shards={"quick": 1, "thorough": 4}, modes=["jit"]),
+    SubCheck(name="complete_runs_across_thread_counts", strategy=lambda: gen.e2e_config(max_N=2, max_W=3, max_K=3, t_range=(60, 400), limits=(1, 2), lam_forms=("scalar",)),
+             execute=execute_e2e_threads, budget={"quick": 24, "thorough": 600}, shards={"quick": 3, "thorough": 4}, modes=["jit"]),
     SubCheck(name="complete_runs_across_modes", strategy=_e2e_strategy, execute=execute_e2e, pinned=_pinned_e2e_long,
              budget={"quick": 64, "thorough": 2000}, shards={"quick": 4, "thorough": 4}, modes=["jit"]),
 ]
